@@ -56,7 +56,7 @@ MANIFEST = dict(
          'format_float prints "-0" on the carved-out class (suite pins it); a "-0" outside that class has its own key.',
 )
 
-IMPORTS = ['Coq.ZArith.ZArith', 'Coq.NArith.NArith', 'Coq.Lists.List', 'Coq.Strings.String', 'SV.Num.Mod360', 'SV.Num.AngleSites', 'SV.Num.AngleCtor',
+IMPORTS = ['Coq.ZArith.ZArith', 'Coq.NArith.NArith', 'Coq.Lists.List', 'Coq.Strings.String', 'SV.Num.Mod360', 'SV.Num.AngleSites', 'SV.Num.AngleCtor', 'SV.Num.SpecStrip',
            'SV.Num.Dec6', 'SV.Num.Dec6CarveProofs', 'SV.Num.VecText', 'SV.SM.FrozenOps', 'SV.SM.FrozenCopy', 'SV.SM.FrozenCopyValue', 'SV.SM.FrozenHash',
            'SV.Gen.AngleSites_gen']
 PRE = '''Import ListNotations.
@@ -72,6 +72,13 @@ class ImplTimeout(Exception):
 
 
 IMPL_CPU_LIMIT = 20.0       # seconds of CPU time of this process for ONE call that normally takes microseconds
+HANGS = [0]                 # calls that ran into the limit so far; after the first one the limit drops to 2 s, after
+MAX_HANGS = 3               # MAX_HANGS the searches stop early (each hang is already a failing input with a replay)
+
+
+def too_many_hangs() -> bool:
+    return HANGS[0] >= MAX_HANGS
+
 
 
 @contextlib.contextmanager
@@ -85,9 +92,10 @@ def impl_limit(seconds: float = IMPL_CPU_LIMIT):
         return
 
     def handler(sig, frame):
+        HANGS[0] += 1
         raise ImplTimeout()
     old = signal.signal(signal.SIGVTALRM, handler)
-    signal.setitimer(signal.ITIMER_VIRTUAL, seconds)
+    signal.setitimer(signal.ITIMER_VIRTUAL, seconds if HANGS[0] == 0 else min(seconds, 2.0))
     try:
         yield
     finally:
@@ -404,6 +412,55 @@ def corr_parse(ck: Ck) -> None:
         ck.extra['parse_vec_disagreement'] = bad[:5]
 
 
+def corr_format_spec(ck: Ck, side: dict):
+    """format(obj, spec) per component against Num/SpecStrip.v spec_post over the generated configuration, as strings: the
+    input of the model is what Python's format(component, spec) prints, its output must be the component of the result."""
+    import srctools.math as M
+    cfgs = side.get('format_spec', {})
+    n = ck.budget(480, 2400)
+    rng = random.Random(ck.seed + 5)
+    cases: list[tuple[str, str, str]] = []
+    special = [1.5e20, 1e10, 2.5e-10, 100.0, 0.5, -1e-9, 1e100, 1234567.0, 0.0001, 1e-5, 120.0, 1e22, 100000.0, 1e6, -0.0, 359.9999995, 0.0, 10.0]
+    specs = [sp for sp in FORMAT_SPECS if not (re.match(r'.?[<>^=]|0?\d', sp) or sp.startswith(' '))]
+    i = 0
+    while len(cases) < n:
+        v = [special[(i + j * 7) % len(special)] for j in range(3)] if i < len(special) else \
+            [gen_fmt_double(rng)[1] if rng.random() < 0.6 else rng.choice(special) * rng.choice([1, 10, 1000, -1]) for _ in range(3)]
+        i += 1
+        if not all(math.isfinite(x) and abs(x) < 1e300 for x in v):
+            continue
+        for cname in ('Vec', 'FrozenAngle', 'FrozenVec', 'Angle')[:2 if i > len(special) else 4]:
+            fam = 'angle' if 'Angle' in cname else 'vec'
+            o = getattr(M, cname)(*v)
+            for sp in (specs if i <= 3 else rng.sample(specs, 3)):
+                parts = format(o, sp).split(' ')
+                if len(parts) != 3:
+                    continue            # reported by the search
+                for c, t in zip(raw_slots(o), parts):
+                    cases.append((fam, format(c + 0.0 if cfgs.get(fam, {}).get('adds_zero') else c, sp), t))
+                    ck.count('format_spec_corr_cases')
+    cases = cases[:n]
+    enc = lambda t: '[' + ';'.join(str(ord(ch)) for ch in t) + ']%N'
+    jobs = []
+    for lo in range(0, len(cases), 500):
+        lit = coq_list(f'({"true" if f == "vec" else "false"}, {enc(a)}, {enc(b)})' for f, a, b in cases[lo:lo + 500])
+        jobs.append(['bad_idx (fun c : bool * list N * list N => let \'(v, a, b) := c in '
+                     f'nl_eqb (spec_post (if v then vec_spec_cfg else angle_spec_cfg) a) b) 0%N {lit}'])
+    bad: list[int] = []
+    for lo, vals in zip(range(0, len(cases), 500), (yield (jobs, 'fspec', PRE))):
+        if vals is None:
+            ck.obligation('correspondence:format_spec', False, 'model could not be evaluated')
+            ck.tie_broken.append('correspondence format_spec: model evaluation failed')
+            return
+        bad += [lo + i for i in parse_coq_N_list(vals[0])]
+    ck.obligation('correspondence:format_spec', not bad,
+                  f'{len(cases)} components of format(obj, spec): Num/SpecStrip.v spec_post over the generated configuration applied to '
+                  f"Python's format(component, spec) vs the component of the result, as strings: {len(bad)} disagreements")
+    if bad:
+        ck.tie_broken.append('correspondence format_spec (Num/SpecStrip.v vs __format__)')
+        ck.extra['format_spec_disagreement'] = [{'family': cases[i][0], 'format(component, spec)': cases[i][1], 'implementation': cases[i][2]} for i in bad[:5]]
+
+
 PLAIN = re.compile(r'-?[0-9]+(\.[0-9]{1,6})?\Z')
 
 
@@ -454,10 +511,11 @@ def search_text(ck: Ck) -> None:
     from srctools.math import Angle, FrozenAngle, FrozenVec, Vec, format_float, parse_vec_str
     n = ck.budget(6000, 30000)
     found: dict[str, tuple] = {}
-    for i in range(n):
+
+    def one(i: int) -> None:
         kind, x = ('special', FMT_SPECIAL[i]) if i < len(FMT_SPECIAL) else gen_fmt_double(ck.rng)
         if abs(x) > 1e300:
-            continue
+            return
         ck.count('text_cases')
         s = format_float(x)
         p = text_problem(s, x)
@@ -465,7 +523,7 @@ def search_text(ck: Ck) -> None:
             key = 'format-float-' + p
             if key not in found or abs(x) > abs(found[key][0]):
                 found[key] = (x, f'format_float({x!r}) == {s!r}', {'call': 'format_float', 'x': x.hex()})
-            continue
+            return
         tol = 5e-7 + math.ulp(x) / 2
         if abs(float(s) - x) > tol:
             found.setdefault('format-float-error', (x, f'float(format_float({x!r})) = {float(s)!r} differs by more than 5e-7', {'call': 'format_float', 'x': x.hex()}))
@@ -516,6 +574,14 @@ def search_text(ck: Ck) -> None:
                 if not all(roundtrip_within_theorem(t, p, q) for t, p, q in zip(parts, a, back)):
                     found.setdefault('angle-from-str-error', (x, f'{cls.__name__}.from_str({txt!r}) = {back!r} for {tuple(a)!r}',
                                                               {'call': 'from_str', 'cls': cls.__name__, 'xyz': [x.hex(), y.hex(), z.hex()]}))
+    for i in range(n):
+        if too_many_hangs():
+            break
+        try:
+            with impl_limit():
+                one(i)
+        except ImplTimeout:
+            found.setdefault('implementation-hangs-in-text', (0.0, f'text case {i} (format_float / str / from_str) did not return within the CPU time limit', {'call': 'search_text', 'case': i}))
     ck.sample({'str(Vec(-1e-9, 0.1, 725.5))': str(Vec(-1e-9, 0.1, 725.5)), 'str(Angle(-1e-14, 725.5, 359.9999997))': str(Angle(-1e-14, 725.5, 359.9999997))})
     for key, (x, what, rp) in found.items():
         ck.violation(key, what, rp)
@@ -928,6 +994,8 @@ def search_histories(ck: Ck) -> list[dict]:
     found: dict[str, tuple] = {}
     all_frames: list[dict] = []
     for i in range(n):
+        if too_many_hangs():
+            break
         if i < len(CORPUS_HIST):
             hist = [tuple(o) for o in CORPUS_HIST[i]]
             problems, frames, regs = run_history(hist)
@@ -1083,7 +1151,10 @@ def search_to_angle(ck: Ck) -> None:
         v = [rnd_val(rng), rnd_val(rng), rnd_val(rng)]
         route = rng.choice(['from_yaw', 'from_pitch', 'from_roll', 'from_angle', 'angle_matmul', 'angle_imatmul', 'transform', 'from_basis', 'rmatmul',
                             'axis_angle', 'vec_to_angle'])
+        if too_many_hangs():
+            break
         try:
+          with impl_limit():
             if route == 'from_yaw': a = Matrix.from_yaw(v[0]).to_angle()
             elif route == 'from_pitch': a = FrozenMatrix.from_pitch(v[0]).to_angle()
             elif route == 'from_roll': a = Matrix.from_roll(v[0]).to_angle()
@@ -1101,6 +1172,9 @@ def search_to_angle(ck: Ck) -> None:
             elif route == 'rmatmul': a = Angle(0, 0, 0) @ FrozenMatrix.from_yaw(v[0])
             elif route == 'axis_angle': a = Matrix.axis_angle(Vec(0, 0, 1), v[0]).to_angle()
             else: a = Vec(1.0, math.sin(math.radians(v[0])), 0.0).to_angle(v[1])
+        except ImplTimeout:
+            found.setdefault(f'implementation-hangs-in-{route}', (route, v, ('did not return within the CPU time limit',)))
+            continue
         except (ValueError, ZeroDivisionError):
             continue
         except AttributeError as e:         # an angle escaped from a conversion without all of its slots and was read
@@ -1340,6 +1414,8 @@ def search_ctor_forms(ck: Ck) -> None:
                         for _ in range(3)])
     found: dict[str, tuple] = {}
     for ti, v in enumerate(triples):
+        if too_many_hangs():
+            break
         for form in forms:
             for cname in ('Angle', 'FrozenAngle', 'Vec', 'FrozenVec'):
                 k = (ti + len(form)) % 4
@@ -1410,6 +1486,8 @@ def search_frozen_keys(ck: Ck) -> None:
             pass
     n = ck.budget(400, 4000)
     for i in range(n):
+        if too_many_hangs():
+            break
         q = rng.random()
         if i < len(CTOR_FLOATS):
             v = [CTOR_FLOATS[i], CTOR_FLOATS[(i * 7 + 3) % len(CTOR_FLOATS)], CTOR_FLOATS[(i * 5 + 1) % len(CTOR_FLOATS)]]
@@ -1421,6 +1499,11 @@ def search_frozen_keys(ck: Ck) -> None:
             with impl_limit():
                 a = cls(*v)
                 if not finite_obj(a):
+                    continue
+                try:
+                    hash(a)
+                except TypeError as e:
+                    found.setdefault(f'frozen-class-unhashable-{cls.__name__}', (f'hash({a!r}) raises {e}', {'call': 'hash', 'cls': cls.__name__, 'values': hexes(v)}))
                     continue
                 ck.count('hash_cases')
                 if any(c != round(c) for c in raw_slots(a)):
@@ -1544,6 +1627,8 @@ def search_format_spec(ck: Ck) -> None:
     found: dict[str, tuple] = {}
     special = [1.5e20, 1e10, 2.5e-10, 100.0, 0.5, -1e-9, 1e100, 1234567.0, 0.0001, 1e-5, 120.0, 1e22, 5e-324, 100000.0, 1e6, 1e16, -0.0, 359.9999995]
     for i in range(n):
+        if too_many_hangs():
+            break
         if i < len(special):
             v = [special[i], special[(i + 5) % len(special)], special[(i + 11) % len(special)]]
         else:
@@ -1756,6 +1841,9 @@ def run(ck: Ck) -> None:
             'format_float_strips_zeros': 'strips format_float_cfg',
             'format_float_pipeline_ok_up_to_negative_zero': 'cfg_base_ok format_float_cfg',
             'str_and_join_use_format_float': 'str_uses_format_float',
+            'format_with_spec_recognised': 'format_spec_recognised',
+            'format_with_empty_spec_is_str': 'format_spec_empty_is_str',
+            'format_with_spec_strips_zeros_of_fixed_point_text_only': '(spec_cfg_ok vec_spec_cfg && spec_cfg_ok angle_spec_cfg)%bool',
             'mutation_census_ok': 'table_ok mut_events no_carve',
             'copy_results_new_or_frozen_self': 'copy_results_ok result_kinds',
             'copy_protocol_present_on_all_six_classes': 'copy_methods_present result_kinds',
@@ -1773,6 +1861,8 @@ def run(ck: Ck) -> None:
     with ThreadPoolExecutor(max_workers=8) as pool:
         # the model evaluations (coqc processes) run in the pool while the searches on the implementation run here
         pend = [Pending(ck, g(ck), pool) for g in (corr_mod, corr_format, corr_parse)] if built else []
+        if built:
+            pend.append(Pending(ck, corr_format_spec(ck, side), pool))
         info = pool.submit(ck.coq_eval, IMPORTS, ['bad_events no_carve mut_events', 'bad_results result_kinds', 'bad_creations angle_creations',
                                                   'neg_zero_fix format_float_cfg', 'bad_shapes copy_shapes', 'bad_ctor_rows angle_ctor_rows', 'bad_hash_rows hash_kinds'], 'info', 600, 'Import ListNotations.') if built else None
         escalated = bool(ck.tie_broken)
@@ -1835,6 +1925,9 @@ def explain_failures(ck: Ck) -> None:
         if any('format_float' in o['detail'] or '__str__' in o['detail'] or 'join' in o['detail'] or '__repr__' in o['detail']
                for o in ck.obligations if o['name'].startswith('translate:') and not o['ok']):
             ck.explain('translate:')       # the translator failed closed on a text method and the search shows the broken output
+    if any('-format-spec-' in k or '-format-empty-spec' in k or k.startswith('format-spec-raised') for k in keys if not k.endswith('format-spec-negative-zero')):
+        ck.explain('instance:format_with_')
+        ck.explain('correspondence:format_spec')
     if any(k.endswith('negative-zero-outside-carve-out') for k in keys):
         ck.explain('instance:format_float_exact_zero_has_no_sign')
         ck.explain('correspondence:format6')
